@@ -185,4 +185,10 @@ func VerifC19RequiredFaithful() {
 	q6 := NewProperty(nil, PropertyTypeComponent, "wire", "v,timeLayout=a,timelayout=b")
 	tl, _ := q6.Args().Find("timeLayout")
 	nd.Assert(len(q6.Args()) == 2 && len(tl) == 1 && tl[0] == "a", "C19: argument names that differ after their first letter are different arguments")
+	// a name written in two segments (also when only the case of its first letter differs): the argument's
+	// values are the items of ONE of its segments, never a blend of both
+	q7 := NewProperty(nil, PropertyTypeComponent, "wire", "v,"+name+"="+x+" k,required=zz")
+	r7, ok7 := q7.Args().Find(ArgRequired)
+	nd.Assert(ok7 && (vEqStrs(r7, []string{"zz"}) || (vEqStrs(r7, []string{x, "k"}) && x != "") || (x == "" && vEqStrs(r7, []string{"", "k"})) || (x == "" && vEqStrs(r7, []string{"k"}))), "C19: an argument's values are the space-separated items of one segment, also when its name is written twice")
+	nd.Assert(len(q7.Args()) == 1, "C19: a name written twice is one argument")
 }
